@@ -125,3 +125,31 @@ pub fn from_pos(p: u64) -> u64 {
     debug_assert!(p < (1u64 << 48));
     sext48(p)
 }
+
+/// Thorough-tier alphabet (~90k values): every u64 with at most three set bits, every u64 with at most
+/// three clear bits, every contiguous run of ones, and b64. Exhaustive over these bit shapes.
+pub fn b64_wide() -> Vec<u64> {
+    let mut v = b64();
+    v.push(0);
+    for i in 0..64 {
+        v.push(1u64 << i);
+        for j in 0..i {
+            v.push(1u64 << i | 1u64 << j);
+            for k in 0..j {
+                v.push(1u64 << i | 1u64 << j | 1u64 << k);
+            }
+        }
+        // runs of ones [j, i]
+        for j in 0..=i {
+            let hi = if i == 63 { u64::MAX } else { (1u64 << (i + 1)) - 1 };
+            v.push(hi & !((1u64 << j) - 1));
+        }
+    }
+    let n = v.len();
+    for i in 0..n {
+        v.push(!v[i]);
+    }
+    v.sort_unstable();
+    v.dedup();
+    v
+}
